@@ -209,6 +209,7 @@ def templates(tier="quick"):
             seen.add(key)
             out.append(("%s:%s:%s" % (fam, show(e), ctx), code))
     out += memory_templates(tier)
+    out += sharing_templates()
     return out
 
 
@@ -268,4 +269,35 @@ def memory_templates(tier):
         for l in ("MLOAD", "SLOAD"):
             code = a1(0) + [(l, None)] + a2(1) + [(l, None)]
             out.append(("mem:%s;%s:%s" % (l, l, pname), code))
+        # store of the value just loaded (from the same or a nearby place), with every store kind
+        for s1 in stores:
+            code = a1(0) + [(loads[s1], None)] + a2(1) + [(s1, None)]
+            out.append(("mem:%s->%s:%s" % (loads[s1], s1, pname), code))
+            code = a1(0) + [(loads[s1], None)] + a2(1) + [(s1, None)] + a1(0) + [(loads[s1], None)]
+            out.append(("mem:%s->%s;%s:%s" % (loads[s1], s1, loads[s1], pname), code))
+        # the same store twice / the same value to two places
+        for s1 in stores:
+            code = val(0, 1) + a1(1) + [(s1, None)] + val(0, 1) + a1(1) + [(s1, None)]
+            out.append(("mem:%s twice:%s" % (s1, pname), code))
+            code = val(0, 1) + a1(1) + [(s1, None)] + val(0, 1) + a2(1) + [(s1, None)]
+            out.append(("mem:%s same value:%s" % (s1, pname), code))
+    return out
+
+
+def sharing_templates():
+    """rule patterns whose inner instruction is used again (the rule must not make it disappear)"""
+    out = []
+    I = lambda *names: [(n, None) for n in names]
+    tails = [I("ADD"), I("SWAP1", "POP"), [("PUSH", 0)] + I("MSTORE"), [], I("DUP2", "SSTORE")]
+    for cmp_ in ("LT", "GT", "SLT", "SGT", "EQ", "ISZERO", "SUB", "XOR", "AND"):
+        for mid in (I("ISZERO", "DUP1", "ISZERO"), I("ISZERO", "ISZERO", "DUP1", "ISZERO"), I("ISZERO", "DUP1", "ISZERO", "ISZERO"),
+                    I("DUP1", "ISZERO", "ISZERO"), I("ISZERO", "DUP1", "ISZERO", "DUP1", "ISZERO"), I("NOT", "DUP1", "NOT"),
+                    I("DUP1", "NOT", "NOT")):
+            for t in tails:
+                out.append(("share:%s %s %s" % (cmp_, " ".join(x for x, _ in mid), " ".join(str(x) for x, _ in t)), I(cmp_) + mid + t))
+    for op in ("ADD", "MUL", "AND", "OR", "XOR", "SUB"):
+        for c in (0, 1):
+            # OP(X, c) with the intermediate shared
+            out.append(("share:%s c%d dup" % (op, c), [("PUSH", c)] + I(op, "DUP1") + [("PUSH", c)] + I(op, "ADD")))
+            out.append(("share:dup %s c%d" % (op, c), I("DUP1") + [("PUSH", c)] + I(op, "DUP1", "SWAP2", "XOR", "ADD")))
     return out
